@@ -328,7 +328,7 @@ func c15OnceInOrder(r *an.Run) {
 			bound, ok := m.loop.Bound.(*ssa.Call)
 			r.Check(ok && an.IsCallTo(bound, "builtin:len") && bound.Call.Args[0] == files && m.loop.Start == 0 && m.loop.Step == 1, short(m.run)+"|iterates-once", m.loop.If.Pos(), "Run iterates exactly once over the slice findFiles returned")
 			// the file processed in iteration i is element i
-			r.Check(strings.HasSuffix(an.Path(m.filename), ".Absolute"), short(m.run)+"|element", m.readFile.Pos(), "the file read is the current element's absolute path")
+			r.Check(strings.HasSuffix(an.PathIn(m.filename, m.run), ".Absolute"), short(m.run)+"|element", m.readFile.Pos(), "the file read is the current element's absolute path")
 		}
 	}
 }
